@@ -45,6 +45,12 @@ Definition loop_init : lstate := mk_l [] [] 0 false.
 Definition run_loop (parser : str -> outcome) (ncols bsize : nat) (text : str) : lstate :=
   fold_left (loop_step parser ncols bsize) (tl (phys_lines text)) loop_init.
 
+(* what compute_batch_ranking gets to see: the emitted batches and, after the last line, the first bsize
+   rows of the remainder when more than 2**10 rows remain (smaller remainders are dropped) *)
+Definition batches_seen (bsize : nat) (s : lstate) : list (list row) :=
+  if crashed s then emitted s
+  else if 1024 <? N.of_nat (length (buf s)) then emitted s ++ [firstn bsize (buf s)] else emitted s.
+
 (* all accepted rows in order of acceptance *)
 Definition accepted_rows (s : lstate) : list row := concat (emitted s) ++ buf s.
 
